@@ -177,3 +177,46 @@ def impl_state(schema, prefix_text, with_handlers=False):
     if parser.defines:
         out.append(("DEF",) + tuple(sorted(parser.defines.items())))
     return tuple(out)
+
+
+# ---------------------------------------------------------------------------
+# in-memory resources (where the file system is not the subject)
+
+def mem_loader(schema, files, overrides=(), log=None):
+    """ConfigLoader whose public openResource serves file:///v/... URLs from `files`
+    (dict url -> text).  `log` (list) receives every URL opened."""
+    import ZConfig
+    import ZConfig.loader
+    base = ZConfig.loader.ConfigLoader
+    if overrides:
+        from ZConfig import cmdline
+        base = cmdline.ExtendedConfigLoader
+
+    class MemLoader(base):
+        def openResource(self, url):
+            url = str(url)
+            if log is not None:
+                log.append(url)
+            if url in files:
+                return self.createResource(io.StringIO(files[url]), url)
+            if url.startswith("file:///v/"):
+                raise ZConfig.ConfigurationError("error opening file %s: no such file" % url, url)
+            return base.openResource(self, url)
+
+    ld = MemLoader(schema)
+    for o in overrides:
+        ld.addOption(o)
+    return ld
+
+
+def load_mem(schema, files, main="file:///v/main.conf", overrides=()):
+    """-> ('ok', config, handler) | ('rejected', exc) | ('internal', exc)"""
+    import ZConfig
+    try:
+        ld = mem_loader(schema, files, overrides)
+        cfg, h = ld.loadFile(io.StringIO(files[main]), main)
+        return ("ok", cfg, h)
+    except ZConfig.ConfigurationError as e:
+        return ("rejected", e, None)
+    except Exception as e:
+        return ("internal", e, None)
